@@ -26,6 +26,9 @@ pub fn body_alphabet(full: bool) -> Vec<ValD> {
         // name in it is a duplicate)
         m(vec![Obs::U(1)], vec![(s("j"), s("x")), (s("k"), s("v"))]),
         m(vec![Obs::U(2)], vec![(s("k"), s("v")), (s("j"), s("x"))]),
+        // a value flagged `NoMetric` (a member without a metric definition) takes its name like
+        // any other value: a second value under that name is a duplicate (round 14, `C08l`)
+        ValD::Metric { obs: vec![Obs::U(3)], unit: UnitD::None, dims: vec![], flag: FlagD::NoMetric },
     ];
     if full {
         v.extend([
@@ -38,6 +41,8 @@ pub fn body_alphabet(full: bool) -> Vec<ValD> {
             m(vec![Obs::U(2), Obs::F(0.5)], vec![(s("j"), s("x"))]),
             ValD::Error(s("value error")),
             ValD::Nothing,
+            ValD::Metric { obs: vec![Obs::U(4)], unit: UnitD::None, dims: vec![(s("k"), s("v"))], flag: FlagD::NoMetric },
+            ValD::Metric { obs: vec![Obs::U(5)], unit: UnitD::None, dims: vec![], flag: FlagD::HighRes },
         ]);
     }
     v
